@@ -104,6 +104,45 @@ def fold_singleton_groups(layers):
     return out
 
 
+ROUNDING_DOMINATED = [0]  # layers in which some sample point was accepted only through _rounding_allowance
+
+
+def _rounding_allowance(fill, p, cp):
+    """Largest colour change at p when the stored integer coordinates of a gradient move by up to half a unit each
+    (what rounding the exact geometry to OpenType's int16 fields can do).  All sign combinations, at half and full
+    magnitude so that a repeat/reflect seam inside the range is seen."""
+    import itertools
+
+    if getattr(fill, "kind", "solid") == "solid" or not hasattr(fill, "stops"):
+        return 0.0
+    if not hasattr(fill, "p0" if fill.kind == "linear" else "c0"):
+        return 0.0  # not a COLR fill (OT-SVG documents keep decimals)
+    if fill.kind == "linear":
+        names = [("p0", 0), ("p0", 1), ("p1", 0), ("p1", 1), ("p2", 0), ("p2", 1)]
+    else:
+        names = [("c0", 0), ("c0", 1), ("c1", 0), ("c1", 1), ("r1", None)] + ([("r0", None)] if fill.r0 else [])
+    saved = {n: getattr(fill, n) for n, _ in names}
+    worst = 0.0
+    try:
+        for mag in (0.25, 0.5):
+            for signs in itertools.product((-1, 1), repeat=len(names)):
+                vals = {n: (list(v) if isinstance(v, (tuple, list)) else v) for n, v in saved.items()}
+                for (n, i), sg in zip(names, signs):
+                    if i is None:
+                        vals[n] = vals[n] + sg * mag
+                    else:
+                        vals[n][i] = vals[n][i] + sg * mag
+                for n, v in vals.items():
+                    setattr(fill, n, tuple(v) if isinstance(v, list) else v)
+                c = fill.at(p)
+                if c is not None:
+                    worst = max(worst, _col_diff(cp, c))
+    finally:
+        for n, v in saved.items():
+            setattr(fill, n, v)
+    return worst
+
+
 def compare(expected, produced, delta, grid=20, bounds=None, ctx=""):
     """expected: [oracle_svg.SvgLayer]; produced: [Produced].  delta: geometric tolerance in font units, may be a
     list (one per expected layer).  Returns list of problem strings (empty = same picture)."""
@@ -127,7 +166,7 @@ def compare(expected, produced, delta, grid=20, bounds=None, ctx=""):
             continue
         pts = OG.sample_points(eb, grid, margin=0.25)
         # plus points just inside/outside the expected outline's vertices' neighbourhood
-        judged = geo_bad = col_bad = 0
+        judged = geo_bad = col_bad = rounding_dominated = 0
         worst = 0.0
         for p in pts:
             if E.shape.dist_to_edge(p) <= d:
@@ -152,6 +191,13 @@ def compare(expected, produced, delta, grid=20, bounds=None, ctx=""):
                         cn = E.fill.at((p[0] + dx / 2, p[1] + dy / 2))
                         var = max(var, _col_diff(ce, cn))
                 diff = _col_diff(ce, cp)
+                if diff > EPS_C + var and cp is not None:
+                    # OpenType stores the gradient's points and radii as integers: how far can that alone move the
+                    # colour here?  (large only for a small gradient extrapolated over many periods)
+                    q = _rounding_allowance(P.fill, p, cp)
+                    if q > 0 and diff <= EPS_C + var + q:
+                        rounding_dominated += 1
+                        continue
                 if diff > EPS_C + var:
                     col_bad += 1
                     worst = max(worst, diff)
@@ -162,6 +208,8 @@ def compare(expected, produced, delta, grid=20, bounds=None, ctx=""):
             problems.append(f"{ctx}layer {i}: outline differs at {geo_bad}/{judged} sample points (delta={d:.2f})")
         # a genuine fill error moves the colour over the whole layer; isolated points sit on gradient discontinuities
         # (repeat/reflect seams, the focal edge) that integer rounding of the geometry shifts by a fraction of a unit
+        if rounding_dominated:
+            ROUNDING_DOMINATED[0] += 1
         if col_bad > max(2, 0.05 * judged):
             problems.append(f"{ctx}layer {i}: colour differs at {col_bad}/{judged} sample points (worst {worst:.1f}/255)")
     return problems
